@@ -19,7 +19,7 @@ func init() {
 		Rule: "case = (schema IR, spelling): a random struct schema (all id classes, three requiredness words, nested annotations to depth 3, nocopy option, ignored untagged/unexported fields) is rendered into struct tags in one of 10 spellings (canonical frugal; thrift tag with name prefix; both tags with a conflicting thrift tag; scalar annotations omitted; id-only tags; byte for i8; package-qualified struct/enum names; spaces around every token, in frugal and in thrift tags; decimal ids with leading zeros) and built as a fresh Go type, next to the canonically spelled type of the same IR. Oracles: the harness' own tag parser reads the spelled type back to the IR (generator self-check); EncodeObject bytes equal the reference encoder driven by the IR; DecodeObject equals the reference decoder; the spelled and the canonical type produce identical bytes and decode identically; ignored fields are neither written nor touched. Static zoo spellings (Spelling, ThriftOnly, BothTags, Ignoring) are included. distinct = distinct (type shape, spelling); non-trivial = the spelling differs textually from the canonical one in at least one tag",
 		Plan: func(tier string) []BuildPlan {
 			if tier == "thorough" {
-				return []BuildPlan{{"plain", 200000}, {"checkptr", 40000}}
+				return []BuildPlan{{"plain", 800000}, {"checkptr", 160000}}
 			}
 			return []BuildPlan{{"plain", 4000}, {"checkptr", 1500}}
 		},
